@@ -120,7 +120,7 @@ func (c *Ctx) cycleEntries() map[*ssa.Function]string {
 }
 
 func c09(c *Ctx) {
-	c.R.Explanation = "C09: decided over the VTA call graph of /repo. Entries = every FanController.UpdateFanSpeed implementation, the actors and interrupt functions of the per-fan run.Group, the sensor-monitor Run, prometheus Collect methods and REST handlers. R-nocrash = no crash site (builtin panic, pterm.Fatal/ui.Fatal, os.Exit/log.Fatal and repository wrappers that never return, comma-less type assertion on an error) lies in an *error context* reachable from those entries; error context = a block reachable from an edge establishing err != nil for an error-typed value, or any function called (transitively) from such a block. Crash sites outside error contexts are listed as not-on-an-I/O-error-path (configuration-dependent ones belong to C11). R-errpair = in the functions reachable from those entries, the value result of a fallible library call (T, error) with T a pointer or interface is dereferenced / has a method invoked only where the error of that same call is established nil; the one partial test of the code base, !os.IsNotExist(err) after os.Stat, is accepted only when the path handed to Stat is the result of a successful filepath.EvalSymlinks (which already failed for every path Stat would fail on; the race between the two calls is assumed away). R-propagate = every SpeedCurve.Evaluate implementation returns a non-nil error on every path from the error edge of a fallible call. R-contain = from the error edge of UpdateFanSpeed in the control goroutine every return is the nil constant and no crash site is reachable. R-actor-nil = every return of every actor of the per-fan run.Group and of the sensor monitor is the nil constant (a non-nil actor error reaches ui.Fatal in the interrupt function and panic(err) in the daemon's actor wrapper). R-restore = when the control goroutine gives up on a fan (cycle error, cancellation, failed initialisation) every return is in state restored of the C03 typestate (original mode confirmed or SetPwm(255)); shared with C03 R-exit/R-init. R-iodata = in the functions reachable from those entries every index, slice expression and integer division whose operand derives from the result of a standard-library call (text read from a device file, the output of a command, the fields of a split line: data the environment controls, not the validated configuration, which is C11's) is proved in bounds by a dominating length guard, a range loop or the range analysis. R-lastgood = C08's R-skip: in the sensor monitor no path from the error edge of Sensor.GetValue reaches the moving-average update (regulation continues on the last good data). R-errnil = a method is invoked on an error value only where it is established non-nil (dominating err != nil, or non-nil by construction: errors.New, fmt.Errorf, boxed value, sentinel; for a helper's error parameter every call site must pass such a value). R-registered = (shared with C11) every iteration of a registering loop of the instantiation code registers its object or leaves the function: a sensor skipped because its first read failed is dereferenced (unchecked registry lookup) in the first control cycle. Not decided: usefulness of continued regulation; library internals (echo, prometheus) are summarised as non-crashing."
+	c.R.Explanation = "C09: decided over the VTA call graph of /repo. Entries = every FanController.UpdateFanSpeed implementation, the actors and interrupt functions of the per-fan run.Group, the sensor-monitor Run, prometheus Collect methods and REST handlers. R-nocrash = no crash site (builtin panic, pterm.Fatal/ui.Fatal, os.Exit/log.Fatal and repository wrappers that never return, comma-less type assertion on an error) lies in an *error context* reachable from those entries; error context = a block reachable from an edge establishing err != nil for an error-typed value, or any function called (transitively) from such a block. Crash sites outside error contexts are listed as not-on-an-I/O-error-path (configuration-dependent ones belong to C11). R-errpair = in the functions reachable from those entries, the value result of a fallible library call (T, error) with T a pointer or interface is dereferenced / has a method invoked only where the error of that same call is established nil; the one partial test of the code base, !os.IsNotExist(err) after os.Stat, is accepted only when the path handed to Stat is the result of a successful filepath.EvalSymlinks (which already failed for every path Stat would fail on; the race between the two calls is assumed away). R-propagate = every SpeedCurve.Evaluate implementation returns a non-nil error on every path from the error edge of a fallible call. R-contain = from the error edge of UpdateFanSpeed in the control goroutine every return is the nil constant and no crash site is reachable. R-actor-nil = every return of every actor of the per-fan run.Group and of the sensor monitor is the nil constant (a non-nil actor error reaches ui.Fatal in the interrupt function and panic(err) in the daemon's actor wrapper). R-restore = when the control goroutine gives up on a fan (cycle error, cancellation, failed initialisation) every return is in state restored of the C03 typestate (original mode confirmed or SetPwm(255)); shared with C03 R-exit/R-init. R-iodata = in the functions reachable from those entries every index, slice expression and integer division whose operand derives from the result of a standard-library call (text read from a device file, the output of a command, the fields of a split line: data the environment controls, not the validated configuration, which is C11's) is proved in bounds by a dominating length guard, a range loop or the range analysis. R-lastgood = C08's R-skip: in the sensor monitor no path from the error edge of Sensor.GetValue reaches the moving-average update (regulation continues on the last good data). R-errnil = a method is invoked on an error value only where it is established non-nil (dominating err != nil, or non-nil by construction: errors.New, fmt.Errorf, boxed value, sentinel; for a helper's error parameter every call site must pass such a value). R-registered = (shared with C11) every iteration of a registering loop of the instantiation code registers its object or leaves the function: a sensor skipped because its first read failed is dereferenced (unchecked registry lookup) in the first control cycle. R-kept = (shared with C08, over the sensors and fans packages) the value of a fallible read is kept in a field only where its error is nil. Not decided: usefulness of continued regulation; library internals (echo, prometheus) are summarised as non-crashing."
 	c.R.Assumptions = append(c.R.Assumptions,
 		"pterm.Fatal printers panic (Fatal flag true) unless derived with WithFatal(false); os.Exit/log.Fatal never return",
 		"library code (echo, prometheus, bbolt, os/exec) does not panic on the inputs it is given")
@@ -200,6 +200,8 @@ func c09(c *Ctx) {
 	// a sensor whose first read fails at start-up must still be registered: the curves dereference the registry
 	// lookup without an existence test in the first control cycle (shared with C11 R-registry|every-entry)
 	c.ruleEveryEntryRegistered("R-registered")
+	// a value kept from a failed sensor read is regulated on as if it had been read (shared with C08 R-kept)
+	c.ruleFailedReadNotKept("R-kept", PkgSensors, PkgFans)
 
 	// ---- R-propagate ------------------------------------------------------------
 	for _, fn := range c.ImplMethods(PkgCurves, "SpeedCurve", "Evaluate") {
